@@ -12,7 +12,10 @@
 EXTENDS CaXml
 CONSTANT MaxStr
 \* characters the focus string is drawn from, per domain (space: attribute-value normalisation must not bite)
-FocusChars(d) == IF d = "free" THEN {"a", "<", ">", "&", "\"", "'", ";", " "} ELSE {"a", "&", "'", ";"}
+\* "x254" stands for 254 letters: with one or two more characters a handle reaches 255 (the longest admitted) and 256 (refused)
+FocusChars(d) == CASE d = "free" -> {"a", "<", ">", "&", "\"", "'", ";", " "}
+                   [] d = "handle" -> {"a", "-", "/", "_", "x254"}
+                   [] OTHER -> {"a", "&", "'", ";"}
 DomainOf(v, name) == (CHOOSE f \in Fields(v) : f.name = name).domain
 \* what the field holds for a focus string: free text is the string itself, URIs get it as their last path segment
 Prefix(v, name) ==
